@@ -471,6 +471,65 @@ def _callers_and_readers(ctx, app):
                'adjacent)', construct='snapshot walk of the reader')
 
 
+def _reader_filter(ctx, mod):
+    """C18.5: what the reader hands on is every event of its own object (of
+    a batch, live or downloaded from a snapshot): the walk over the batch is
+    never cut short, an event is dropped only when it belongs to another
+    object or was seen already, and the download returns the selected
+    column of every row."""
+    tl = mod.classes.get('TraceLoop')
+    ctx.require(tl is not None, 'trace._zk.TraceLoop')
+    pe = tl.methods.get('_process_events')
+    ctx.require(pe is not None, 'TraceLoop._process_events')
+    graph = ctx.cfg(pe)
+    nz = N.Normaliser(env=K.func_env(pe))
+    loops = [n for n in graph.nodes if n.kind == 'for']
+    ctx.require(loops, 'event loop of _process_events', rule='C18.5')
+    loop = loops[0]
+    K.exhaustive_loop(ctx, 'C18.5', pe, loop, 'walk over a batch of events')
+    hands = [n for n, c in K.nodes_calling(
+        graph, lambda c: K.is_meth(c, '_process_event'))]
+    ctx.require(hands, 'hand-over to _process_event', rule='C18.5')
+
+    def dropped(edge):
+        """outcomes on which an event is legitimately not handed on"""
+        for a in nz.facts_of_edge(edge):
+            key = a.key
+            if key[0] == 'cmp' and key[1] == '!=' and \
+                    'self._object_name' in [t for t, _c in key[2]]:
+                return True         # another object's event
+            if key[0] == 'truth' and key[2] and key[1] == 'self._last_event':
+                return True         # judged by the following comparison
+        return False
+    own = all(K.guarded_by(graph, h, lambda e: any(
+        a.key[0] == 'cmp' and a.key[1] == '==' and
+        'self._object_name' in [t for t, _c in a.key[2]]
+        for a in nz.facts_of_edge(e)), start=loop) for h in hands)
+    skip = K.find_path(loop, [loop], cut_node=lambda n: n in hands,
+                       cut_edge=lambda e: dropped(e) or (
+                           e.src is loop and e.kind == 'done'),
+                       follow_exc=False)
+    ctx.ob('C18.5', pe, hands[0], own and skip is None,
+           'an event is handed on exactly when it belongs to the object '
+           'read (and is not a repeat of the last one)',
+           path=K.describe(skip) if skip else None,
+           construct='reader filter')
+    down = mod.functions.get('download_batch')
+    dgraph = ctx.cfg(down)
+    parts = [p for name in set(
+        N.txt(r.ast.value) for r in dgraph.nodes
+        if r.kind == 'return' and isinstance(r.ast.value, ast.Name))
+        for p in K.list_contributions(down, name)]
+    okd = len(parts) == 1 and 'other' not in parts[0] and \
+        not parts[0]['conditional'] and parts[0]['elt'] is not None and \
+        len(parts[0]['domains']) == 1 and \
+        'execute(' in K.rtxt(down, parts[0]['domains'][0][1]) and \
+        N.txt(parts[0]['elt']) == '%s[0]' % N.txt(parts[0]['domains'][0][0])
+    ctx.ob('C18.5', down, None, okd,
+           'download_batch returns the selected column of every row of the '
+           'query', construct='download result')
+
+
 def check(ctx):
     mod, up = _upload(ctx)
     app = _selection(ctx)
@@ -478,6 +537,7 @@ def check(ctx):
     _keep_newest(ctx, mod)
     _schema(ctx, mod, up, app)
     _callers_and_readers(ctx, app)
+    _reader_filter(ctx, mod)
 
 
 _Z = 'lib/python/treadmill/trace/_zk.py'
